@@ -157,6 +157,152 @@ type runner struct {
 	conn  *conn
 	m     *model
 	notes []string
+	fired []firedWrite // in-send writes executed during the current step (sequential mode)
+}
+
+// stepWrite is a change of a record that happened during one step: the step's
+// own write or a write the reply consumer performed inside send.
+type stepWrite struct {
+	kind     string
+	key      string
+	payload  []byte          // format byte + body (create / update)
+	atReply  int             // in-send writes: index of the triggering reply within the step's replies
+	inSend   bool            //
+	optional map[string]bool // op-ids of subscriptions that need not announce it if their query phase shows it
+	used     map[string]bool // consumed by a notification of this subscription
+}
+
+func (w *stepWrite) isDelete() bool { return w.kind == kDelete }
+
+// firedWrites turns the executed in-send writes of the step into stepWrites
+// (successful ones only) and updates the record model.
+func (r *runner) firedWrites(cm msg, classes map[string]int) []*stepWrite {
+	var out []*stepWrite
+	for _, f := range r.fired {
+		classes["insend_write_"+f.Trigger+"_executed"]++
+		if f.err != nil {
+			classes["insend_write_failed"]++
+			continue
+		}
+		key := normKey(f.Key)
+		w := &stepWrite{kind: f.Kind, key: key, payload: f.Payload, atReply: f.atReply, inSend: true, used: map[string]bool{}, optional: map[string]bool{}}
+		if f.Trigger == "ok" && f.Op == cm.OpID && cm.Kind == kQsub {
+			// during the query phase of this very qsub: the query, the subscription or both may show it
+			w.optional[cm.OpID] = true
+			classes["insend_write_during_query_phase_of_qsub"]++
+		}
+		if f.Trigger == "done" && f.Op == cm.OpID && cm.Kind == kQsub {
+			classes["insend_write_at_query_to_sub_transition"]++
+		}
+		out = append(out, w)
+		if f.Kind == kDelete {
+			r.m.recs[key] = &recState{known: true, deleted: true}
+		} else {
+			delete(r.m.recs, key)
+			if o, ok := decodeObject(f.Payload[1:]); ok && f.Payload[0] == 'J' && isPersistent(key) {
+				r.m.recs[key] = &recState{known: true, obj: o}
+			}
+		}
+	}
+	return out
+}
+
+// checkNotifications: every subscription announces every successful matching
+// write of the step exactly once (subscriptions with a condition: at most once),
+// and nothing else. notes: the notification replies per subscription op-id.
+func (r *runner) checkNotifications(bad func(string, ...any), classes map[string]int, subs map[string]*subState, notes map[string][]reply, writes []*stepWrite, got []reply) {
+	for _, op := range sortedKeys(notes) {
+		if _, ok := subs[op]; !ok {
+			bad("reply %s belongs neither to this request nor to an active subscription", notes[op][0])
+		}
+	}
+	for _, op := range sortedKeys(subs) {
+		s := subs[op]
+		for _, g := range notes[op] {
+			classes["sub_notification_"+g.typ]++
+			var hit *stepWrite
+			for _, w := range writes {
+				if w.used[op] || !s.matchesKey(w.key) {
+					continue
+				}
+				switch g.typ {
+				case "del":
+					if w.isDelete() && string(g.rest) == w.key {
+						hit = w
+					}
+				case "upd", "new":
+					if _, ok := parseRecordReply(g, w.key); ok && !w.isDelete() {
+						hit = w
+					}
+				case "warning":
+					if !w.isDelete() {
+						hit = w
+					}
+				default:
+					bad("subscription reply of type %q", g.typ)
+				}
+				if hit != nil {
+					break
+				}
+			}
+			if hit == nil {
+				bad("subscription %q (%s:%s) sent %s, which announces no successful matching change of this step (or one it had announced already)", op, s.db, s.prefix, g)
+			}
+			hit.used[op] = true
+			if g.typ == "upd" || g.typ == "new" {
+				data, _ := parseRecordReply(g, hit.key)
+				if len(data) < 1 || data[0] != 'J' {
+					bad("the record of a notification is not in the JSON form: %q", clip(string(data), 60))
+				}
+				if hit.kind != kInsert && len(hit.payload) >= 2 && hit.payload[0] == 'J' {
+					if written, ok := decodeObject(hit.payload[1:]); ok {
+						// the written JSON object is what subscribers are told, plus _meta
+						obj, why := checkRecordData(data)
+						if why != "" {
+							bad("notification for the written object %v: %s", written, why)
+						}
+						if !sameContent(written, obj) {
+							bad("notification carries %v, written was %v", obj, written)
+						}
+						classes["notification_content_checked"]++
+					}
+				}
+			}
+		}
+		// nothing lost
+		for _, w := range writes {
+			if w.used[op] || !s.matchesKey(w.key) || s.hasWhere {
+				continue
+			}
+			how := "the request's own write"
+			if w.inSend {
+				how = fmt.Sprintf("a write the reply consumer made and got acknowledged inside send, on reply %d of this step", w.atReply)
+			}
+			if !w.optional[op] {
+				bad("subscription %q (%s:%s, no condition) never announced the %s of %q (%s)", op, s.db, s.prefix, w.kind, w.key, how)
+			}
+			// written while this qsub's query phase ran: then the query must account for it
+			seenBefore, seenAfter := false, false
+			for j, g := range got {
+				if g.opID == op && g.typ == "ok" {
+					if _, ok := parseRecordReply(g, w.key); ok {
+						if j > w.atReply {
+							seenAfter = true
+						} else {
+							seenBefore = true
+						}
+					}
+				}
+			}
+			switch {
+			case w.isDelete() && (seenBefore || seenAfter):
+				bad("qsub %q reported %q in its query phase, the record was deleted during that phase (acknowledged inside send), and no del followed", op, w.key)
+			case !w.isDelete() && !seenAfter:
+				bad("qsub %q: %q was written during its query phase (acknowledged inside send on reply %d); neither a later ok record nor a notification shows it", op, w.key, w.atReply)
+			}
+			classes["insend_write_shown_by_query_only"]++
+		}
+	}
 }
 
 func (r *runner) failf(format string, args ...any) {
@@ -191,6 +337,9 @@ func runCase(t fataler, c *dbCase) map[string]int {
 		}
 	}
 	r.conn.sendYields = c.SendYields
+	for _, a := range c.InSend {
+		r.conn.actions = append(r.conn.actions, &sendAction{inSend: a})
+	}
 	// nothing of an earlier case may still be running
 	if total, _, dump := handlerGoroutines(); total != 0 {
 		t.Fatalf("harness: %d database API handler goroutines are alive before the case starts\n%s", total, dump)
@@ -236,6 +385,10 @@ func (r *runner) runSequential(classes map[string]int) {
 		r.conn.handle(raw)
 		parked := r.quiet(fmt.Sprintf("after message %d", i), func() bool { return r.terminalArrived(cm, before) })
 		all := r.conn.snapshot()
+		r.fired = r.conn.takeFired()
+		for k := range r.fired {
+			r.fired[k].atReply -= before
+		}
 		r.checkStep(i, cm, all[before:], classes)
 		if parked != len(r.m.subs) {
 			r.failf("after message %d (%q): %d subscription handlers are waiting for changes, the replies so far imply %d active subscriptions %v",
@@ -247,6 +400,7 @@ func (r *runner) runSequential(classes map[string]int) {
 		before := r.conn.count()
 		r.conn.handle([]byte(op + "|cancel"))
 		r.quiet("after the final cancel of "+op, nil)
+		r.fired = r.conn.takeFired()
 		r.checkStep(len(r.c.Msgs), msg{Kind: kCancel, OpID: op}, r.conn.snapshot()[before:], classes)
 	}
 	if total, _, dump := handlerGoroutines(); total != 0 {
@@ -353,9 +507,13 @@ func (r *runner) checkStep(i int, cm msg, got []reply, classes map[string]int) {
 
 	case kQuery, kQsub:
 		terminal := -1
+		notes := map[string][]reply{}
 		for j, g := range got {
-			if g.opID != cm.OpID {
-				bad("reply %s carries a different op-id", g)
+			if g.opID != cm.OpID || (terminal >= 0 && cm.Kind == kQsub && got[terminal].typ == "done") {
+				// notifications: in-send writes of this step are announced to the subscriptions
+				// that are active, and to this qsub once its query phase is over
+				notes[g.opID] = append(notes[g.opID], g)
+				continue
 			}
 			switch g.typ {
 			case "ok":
@@ -380,13 +538,19 @@ func (r *runner) checkStep(i int, cm msg, got []reply, classes map[string]int) {
 			bad("query ended without done or error")
 		}
 		classes[cm.Kind+"_"+got[terminal].typ]++
+		subs := map[string]*subState{}
+		for op, s := range r.m.subs {
+			subs[op] = s
+		}
 		if cm.Kind == kQsub && got[terminal].typ == "done" {
 			s, ok := subFor(cm.OpID, cm.Query)
 			if !ok {
 				bad("harness: query text accepted by the API does not parse here")
 			}
 			r.m.subs[cm.OpID] = s
+			subs[cm.OpID] = s
 		}
+		r.checkNotifications(bad, classes, subs, notes, r.firedWrites(cm, classes), got)
 
 	case kSub:
 		switch {
@@ -411,64 +575,22 @@ func (r *runner) checkStep(i int, cm msg, got []reply, classes map[string]int) {
 		success := mine[0].typ == "success"
 		classes[cm.Kind+"_"+mine[0].typ]++
 		key := normKey(cm.Key)
-		// notifications
-		perSub := map[string][]reply{}
+		// notifications: for the request's own write and for writes made inside send meanwhile
+		notes := map[string][]reply{}
 		for _, g := range rest {
-			if _, ok := r.m.subs[g.opID]; !ok {
-				bad("reply %s belongs neither to this request nor to an active subscription", g)
-			}
-			perSub[g.opID] = append(perSub[g.opID], g)
+			notes[g.opID] = append(notes[g.opID], g)
 		}
-		for _, op := range sortedKeys(r.m.subs) {
-			s := r.m.subs[op]
-			n := perSub[op]
-			want := success && s.matchesKey(key)
-			switch {
-			case !want && len(n) != 0:
-				bad("subscription %q (%s:%s) was notified %s although no matching record changed", op, s.db, s.prefix, typesOf(n))
-			case want && !s.hasWhere && len(n) != 1:
-				bad("subscription %q (%s:%s, no condition) got %d notifications for the change of %q, want 1", op, s.db, s.prefix, len(n), key)
-			case want && len(n) > 1:
-				bad("subscription %q got %d notifications for one change", op, len(n))
-			}
-			for _, g := range n {
-				classes["sub_notification_"+g.typ]++
-				switch g.typ {
-				case "del":
-					if cm.Kind != kDelete || string(g.rest) != key {
-						bad("notification %s for a %s of %q", g, cm.Kind, key)
-					}
-				case "upd", "new":
-					if cm.Kind == kDelete {
-						bad("notification %s for a delete", g)
-					}
-					data, ok := parseRecordReply(g, key)
-					if !ok {
-						bad("notification %s does not carry the key %q", g, key)
-					}
-					if len(data) < 1 || data[0] != 'J' {
-						bad("the record of a notification is not in the JSON form: %q", clip(string(data), 60))
-					}
-					if cm.Kind != kInsert && len(cm.Payload) >= 2 && cm.Payload[0] == 'J' {
-						if written, ok := decodeObject(cm.Payload[1:]); ok {
-							// the written JSON object is what subscribers are told, plus _meta
-							obj, why := checkRecordData(data)
-							if why != "" {
-								bad("notification for the written object %v: %s", written, why)
-							}
-							if !sameContent(written, obj) {
-								bad("notification carries %v, written was %v", obj, written)
-							}
-							classes["notification_content_checked"]++
-						}
-					}
-				case "warning":
-					if cm.Kind == kDelete {
-						bad("warning notification for a delete")
-					}
-				default:
-					bad("subscription reply of type %q", g.typ)
-				}
+		var writes []*stepWrite
+		if success {
+			writes = append(writes, &stepWrite{kind: cm.Kind, key: key, payload: cm.Payload, used: map[string]bool{}, optional: map[string]bool{}})
+		}
+		extra := r.firedWrites(cm, classes)
+		r.checkNotifications(bad, classes, r.m.subs, notes, append(writes, extra...), got)
+		for _, w := range extra {
+			if w.key == key {
+				// the consumer changed the very record this request wrote: its content is whatever came last
+				delete(r.m.recs, key)
+				success = false
 			}
 		}
 		// model
@@ -537,6 +659,7 @@ func (r *runner) runConcurrent(classes map[string]int) {
 	if total, _, dump := handlerGoroutines(); total != 0 {
 		r.failf("%d handler goroutines are left after every registered subscription was cancelled\n%s", total, dump)
 	}
+	r.fired = r.conn.takeFired()
 	r.checkTranscript(msgs, r.conn.snapshot(), classes)
 }
 
@@ -608,6 +731,20 @@ func (r *runner) checkTranscript(msgs []msg, replies []reply, classes map[string
 					}
 				}
 			}
+		}
+	}
+
+	// writes the reply consumer made inside send count as changes as well
+	for _, f := range r.fired {
+		classes["insend_write_"+f.Trigger+"_executed"]++
+		if f.err != nil {
+			classes["insend_write_failed"]++
+			continue
+		}
+		if f.Kind == kDelete {
+			deletes[normKey(f.Key)]++
+		} else {
+			writes[normKey(f.Key)]++
 		}
 	}
 
